@@ -128,8 +128,9 @@ func genC08(t *rapid.T) C08Case {
 		idx[i] = i
 	}
 	c.Perm = rapid.Permutation(idx).Draw(t, "order")
-	c.Mode = rapid.SampledFrom([]string{"update", "update", "format", "compare"}).Draw(t, "mode")
-	if c.Mode == "compare" {
+	c.Mode = rapid.SampledFrom([]string{"update", "update", "format", "compare", "format-check"}).Draw(t, "mode")
+	if c.Mode == "compare" || c.Mode == "format-check" {
+		// compare: files updated beforehand; format-check: files formatted beforehand
 		for i := 0; i < n; i++ {
 			if rapid.Bool().Draw(t, "preupd") {
 				c.PreUpd = append(c.PreUpd, i)
@@ -213,6 +214,11 @@ func checkC08(c C08Case) Outcome {
 			run(sa, ra, "regex", "update", c.Asms[i].arg())
 			run(sbB, rb, "regex", "update", c.Asms[i].arg())
 		}
+	case "format-check":
+		for _, i := range c.PreUpd {
+			run(sa, ra, "regex", "format", c.Asms[i].arg())
+			run(sbB, rb, "regex", "format", c.Asms[i].arg())
+		}
 	}
 	var allRes cli.Result
 	var singles []cli.Result
@@ -228,6 +234,12 @@ func checkC08(c C08Case) Outcome {
 			singles = append(singles, run(sbB, rb, "regex", "format", c.Asms[i].arg()))
 		}
 		singles = append(singles, run(sbB, rb, "regex", "format", "common"), run(sbB, rb, "regex", "format", "words"))
+	case "format-check":
+		allRes = run(sa, ra, "regex", "format", "--check", "--all")
+		for _, i := range c.Perm {
+			singles = append(singles, run(sbB, rb, "regex", "format", "--check", c.Asms[i].arg()))
+		}
+		singles = append(singles, run(sbB, rb, "regex", "format", "--check", "common"), run(sbB, rb, "regex", "format", "--check", "words"))
 	case "compare":
 		allRes = run(sa, ra, "regex", "compare", "--all")
 		for _, i := range c.Perm {
@@ -244,7 +256,55 @@ func checkC08(c C08Case) Outcome {
 			anyBad = true
 		}
 	}
-	if c.Mode != "format" && anyBad {
+	if c.Mode == "format-check" {
+		// the files a single invocation can address: --all must report exactly those of them that the single checks report
+		addressable := map[string]bool{"common.ra": true, "words.ra": true}
+		for _, a := range c.Asms {
+			addressable[a.Name] = true
+		}
+		reported := func(stdout string) map[string]bool {
+			m := map[string]bool{}
+			for _, l := range strings.Split(stdout, "\n") {
+				if name, ok := strings.CutSuffix(strings.TrimSpace(l), " not properly formatted"); ok {
+					if i := strings.LastIndexByte(name, '/'); i >= 0 {
+						name = name[i+1:]
+					}
+					if addressable[name] {
+						m[name] = true
+					}
+				}
+			}
+			return m
+		}
+		ar, sr := reported(allRes.Stdout), map[string]bool{}
+		singleFails := false
+		for _, s := range singles {
+			for n := range reported(s.Stdout) {
+				sr[n] = true
+			}
+			if s.Exit != 0 {
+				singleFails = true
+			}
+		}
+		out.Detail["reported_by_all"], out.Detail["reported_by_singles"] = fmt.Sprint(ar), fmt.Sprint(sr)
+		for n := range ar {
+			if !sr[n] {
+				out.Violation = "format --check --all reports " + n + " as not properly formatted, the check of that file alone does not"
+				return out
+			}
+		}
+		for n := range sr {
+			if !ar[n] {
+				out.Violation = "format --check of " + n + " alone reports it as not properly formatted, --check --all does not"
+				return out
+			}
+		}
+		if singleFails && allRes.Exit == 0 {
+			out.Violation = "a single format --check fails but --check --all exits 0"
+			return out
+		}
+	}
+	if c.Mode != "format" && c.Mode != "format-check" && anyBad {
 		// a file that cannot be processed alone must not be processed by --all either
 		if allRes.Exit == 0 {
 			out.Detail["all_stderr"] = tailLines(allRes.Stderr, 6)
